@@ -15,6 +15,21 @@ def utf8Table (n : Nat) : UInt64 × Nat :=
     | n + 1 => (List.range 256).foldl (fun a x => go n (UInt8.ofNat x :: pre) a) acc
   go n [] (14695981039346656037, 0)
 
+/-- all byte strings of length `n`, each under every 2-way split and the all-singletons split, through
+the model's slice-list gate; (fnv, count) over the (string, split) pairs in the harness's order -/
+def utf8SplitTable (n : Nat) : UInt64 × Nat :=
+  let rec go (k : Nat) (pre : Bytes) (acc : UInt64 × Nat) : UInt64 × Nat :=
+    match k with
+    | 0 =>
+      let s := pre.reverse
+      let add := fun (a : UInt64 × Nat) (parts : List Bytes) =>
+        let v := Utf8.buffersCheck true 1 parts
+        (fnvStep a.1 (if v then 1 else 0), if v then a.2 + 1 else a.2)
+      let acc := (List.range (n + 1)).foldl (fun a cut => add a [s.take cut, s.drop cut]) acc
+      add acc (s.map fun b => [b])
+    | k + 1 => (List.range 256).foldl (fun a x => go k (UInt8.ofNat x :: pre) a) acc
+  go n [] (14695981039346656037, 0)
+
 def runUtf8 (args : List String) : Res :=
   match args with
   | ["bytes", en, op, data] =>
@@ -26,6 +41,9 @@ def runUtf8 (args : List String) : Res :=
     let want := if s2b en && (op == "1" || op == "8") then Spec.Utf8.valid ps.flatten else true
     { out := b2s r, spec := if r == want then "ok" else "bad:gate-differs-from-validity-of-whole-payload",
       tags := s!"bufs n={min ps.length 4} en={en} op={op} r={b2s r}" }
+  | ["tablesplit", n] =>
+    let (h, c) := utf8SplitTable n.toNat!
+    { out := s!"{h} {c}", tags := s!"tablesplit{n}" }
   | ["table", n] =>
     let (h, c) := utf8Table n.toNat!
     { out := s!"{h} {c}", tags := s!"table{n}" }
